@@ -21,6 +21,12 @@ func fatalOutcome(jr JobResult) spec.Outcome {
 		return spec.Outcome{Verdict: "TIMEOUT", Detail: "wall-clock watchdog", Hash: "TIMEOUT"}
 	}
 	class, site := fatalClass(jr.Fatal)
+	if strings.Contains(class, "all goroutines are asleep") {
+		// the Go runtime's own deadlock detector: every goroutine of the worker is parked, i.e. a simulated task is blocked
+		// in an operation the simulator does not own (select without default, sync.Cond, ...). That is the simulator's
+		// limit, not a verdict about the library.
+		return spec.Outcome{Verdict: "HARNESS", Detail: "the library blocked in an operation the simulator does not own (" + class + " in " + site + "); see coverage.seams.unowned"}
+	}
 	return spec.Outcome{Verdict: "FATAL", Detail: class, Site: site, Hash: fpOf("FATAL", class, site)}
 }
 
@@ -220,7 +226,7 @@ func resText(r spec.Resolution) string {
 		s = "map order: identity"
 	}
 	if r.Adv == "seeded" || r.Adv == "rotate" {
-		s += fmt.Sprintf("(seed %d)", r.AdvSeed)
+		s += fmt.Sprintf("(seed %d; the same seed also drives sync.Pool reuse, fake addresses and the schedule of goroutines started by the call)", r.AdvSeed)
 	}
 	if r.Adv == "overrides" {
 		var p []string
